@@ -6,7 +6,7 @@ from vp import loader, symnp as S, elem as E
 from vp.elem import CTX
 from vp.run import new_result
 from ref import fips197 as F, fips46 as D
-from harness.common import any_differs, model_bytes, explore, seeded_refute
+from harness.common import any_differs, model_bytes, explore, seeded_refute, guarded
 import harness.C05 as C05
 import harness.C06 as C06
 
@@ -113,8 +113,19 @@ def _check_common(pr, res, mk, call_kw, ek_kw, formula, nwords, job, expected_ke
     pr.fallback = lambda goal: seeded_refute(goal, inputs, C05._table_axioms(), assumptions=list(pr.ex.pc))
 
     def wit(what, **kw):
-        return lambda m: dict(kind=job['kind'], ns=job['ns'], cls=job['cls'], klen=job.get('klen', 8), clause=what, data=model_bytes(m, data), keyv=model_bytes(m, ek_kw['key']),
-                              guesses=[m.eval(t, model_completion=True).as_long() for t in S.terms(G)], key=dict(kind=job['kind'], cls=job['cls'], clause=what), **kw)
+        def f(m):
+            w_ = dict(kind=job['kind'], ns=job['ns'], cls=job['cls'], klen=job.get('klen', 8), clause=what, data=model_bytes(m, data), keyv=model_bytes(m, ek_kw['key']),
+                      guesses=[m.eval(t, model_completion=True).as_long() for t in S.terms(G)], key=dict(kind=job['kind'], cls=job['cls'], clause=what))
+            w_.update(kw)
+            return w_
+        return f
+    # (0) a concrete guesses array that is neither sorted nor duplicate free: one column per entry (values are compared in (ii') below)
+    gc = [37, 3, 3, 20]
+    done, fullc = guarded(pr, f'{job["cls"]}(guesses={gc})', wit('columns', guesses=gc), lambda: mk(S.const(rnp.array(gc, dtype='uint8')), None)(**{call_kw['tag']: data}))
+    if done:
+        pr.prove(z3.BoolVal(tuple(fullc.shape) == (n, len(gc), nwords)), f'{job["cls"]}(guesses={gc}): output shape (traces, guesses, words) = {(n, len(gc), nwords)}', wit('columns', guesses=gc), sample=False)
+    if res['failures']:
+        return
     # (ii) every guess column is the computation with that guess in place of the key word; shape (traces, guesses, words)
     sf = mk(G, None)
     full = sf(**{call_kw['tag']: data})
@@ -128,11 +139,27 @@ def _check_common(pr, res, mk, call_kw, ek_kw, formula, nwords, job, expected_ke
         for t in range(n):          # one obligation per trace keeps every query small
             pr.prove(z3.Not(any_differs(got[t * per:(t + 1) * per], exp[t * per:(t + 1) * per])),
                      f'{job["cls"]}: output[{t}, i, w] == the targeted operation on word w with guess g_i in place of the key word; shape (traces, guesses, words)', wit('columns'), sample=(t == 0))
+    # (ii') a concrete guesses array that is neither sorted nor duplicate free: the guess axis follows the caller's array entry by entry
+    # (expected value: column 0 of the symbolic run, just proved, with the guess symbol replaced by the concrete guess)
+    if done and ok:
+        okc = tuple(fullc.shape) == (n, len(gc), nwords)
+        g0 = S.terms(G)[0]
+        for t in range(n if okc else 0):
+            expc = [z3.substitute(full.c[t, 0, w], (g0, z3.BitVecVal(g, 8))) if E.is_sym(full.c[t, 0, w]) else full.c[t, 0, w] for g in gc for w in range(nwords)]
+            pr.prove(z3.Not(any_differs(list(fullc.c[t].reshape(-1)), expc)),
+                     f'{job["cls"]}(guesses={gc}): output[{t}, i, w] == the targeted operation with guess g_i, in the order and multiplicity of the guesses array', wit('columns', guesses=gc), sample=False)
     # (i) at the expected key the column is the real cipher state
     ek = sf.compute_expected_key(**{ek_kw['tag']: ek_kw['key']})
     ekref = expected_key_ref()
     okk = tuple(S._w(ek).shape) == (nwords,)
     pr.prove(z3.Not(any_differs(S.terms(ek), ekref)) if okk else z3.BoolVal(False), f'{job["cls"]}: compute_expected_key(key) == the round key the targeted operation uses', wit('expected-key'))
+    # the same object asked again, for another key (the bytes of the first one in reverse order): the answer is the one for that key
+    key2 = S.from_terms(list(reversed(S.terms(ek_kw['key']))), 'uint8')
+    ek2 = sf.compute_expected_key(**{ek_kw['tag']: key2})
+    ekref2 = expected_key_ref(S.terms(key2))
+    okk2 = tuple(S._w(ek2).shape) == (nwords,)
+    pr.prove(z3.Not(any_differs(S.terms(ek2), ekref2)) if okk2 else z3.BoolVal(False),
+             f'{job["cls"]}: a second compute_expected_key call on the same object, with another key, answers for that key', wit('expected-key-second-call'), sample=False)
     if okk:
         sf_true = mk(S._w(ek), None)
         out = sf_true(**{call_kw['tag']: data})
@@ -184,8 +211,8 @@ def job_aes(job, res):
                 return fns['INV_SBOX'](x)
             return drow[F.SHIFT[w]] ^ fns['INV_SBOX'](x)
 
-        def expected_key_ref():
-            rk = ref.round_keys(S.terms(key))
+        def expected_key_ref(kt=None):
+            rk = ref.round_keys(kt if kt is not None else S.terms(key))
             return rk[0] if which == 'first' else rk[nr]
 
         def real_state():
@@ -233,8 +260,8 @@ def job_des(job, res):
             v, pos = D.DesRef.stop_value(tr, 0, step, True, True)
             return v[w]
 
-        def expected_key_ref():
-            ks = D.key_schedule_bits(S.terms(key))
+        def expected_key_ref(kt=None):
+            ks = D.key_schedule_bits(kt if kt is not None else S.terms(key))
             r = 0 if which == 'first' else 15
             return [z3.ZeroExt(2, z3.Concat(*ks[r][6 * w:6 * w + 6])) for w in range(8)]
 
@@ -314,6 +341,19 @@ def replay(w):
             exp = np.array([[[hyp(row, int(gg), wd) for wd in range(nw)] for gg in gs] for row in data])
             if full.shape != exp.shape or (full != exp).any():
                 return dict(reproduced=True, detail=f'{w["cls"]}: data={data} guesses={gs}: output {full.tolist()} expected {exp.tolist()}')
+        elif clause == 'expected-key-second-call':
+            obj = cls(guesses=g)
+            obj.compute_expected_key(key=k)
+            k2 = k[::-1].copy()
+            ek2 = obj.compute_expected_key(key=k2)
+            if isaes:
+                rk2 = cref.round_keys([int(b) for b in k2])
+                ref2 = rk2[0] if which == 'first' else rk2[-1]
+            else:
+                ks2 = D.key_schedule_bits([z3.BitVecVal(int(b), 8) for b in k2])
+                ref2 = [z3.simplify(z3.ZeroExt(2, z3.Concat(*ks2[r][6 * wd:6 * wd + 6]))).as_long() for wd in range(8)]
+            if list(np.array(ek2).reshape(-1)) != ref2:
+                return dict(reproduced=True, detail=f'{w["cls"]}: compute_expected_key({keyv}) then compute_expected_key({k2.tolist()}) on the same object = {np.array(ek2).tolist()} but the round key of the second key is {ref2}')
         elif clause in ('expected-key', 'true-key'):
             ek = cls(guesses=g).compute_expected_key(key=k)
             if list(np.array(ek).reshape(-1)) != ekref:
